@@ -1302,6 +1302,7 @@ func levelWrites(file string) bool {
 		return found
 	}
 	cachedOK, cachedInc, delegOK, nlevelOK, incOK := false, false, false, false, true
+	serversSwitchedAt := -1
 	for _, d := range f.Decls {
 		fd, ok := d.(*ast.FuncDecl)
 		if !ok || fd.Body == nil {
@@ -1332,11 +1333,21 @@ func levelWrites(file string) bool {
 				}
 			case *ast.AssignStmt:
 				for i, l := range x.Lhs {
+					if sel, ok := l.(*ast.SelectorExpr); ok && sel.Sel.Name == "servers" && fd.Name.Name == "resolveWithCachedNameservers" {
+						if id, ok := sel.X.(*ast.Ident); ok && id.Name == "rs" && serversSwitchedAt < 0 {
+							serversSwitchedAt = fset.Position(x.Pos()).Offset
+						}
+					}
 					if i < len(x.Rhs) && isLevel(l) && len(x.Lhs) == len(x.Rhs) {
 						switch fd.Name.Name {
 						case "resolveWithCachedNameservers":
 							if isCountLabel(x.Rhs[i]) {
-								cachedOK = true
+								// the zone counted must be the cached one: the function's own question parameter, or
+								// rs.servers only once rs.servers has been switched to the cached set
+								arg := x.Rhs[i].(*ast.CallExpr).Args[0]
+								if !mentions(arg, "rs") || (serversSwitchedAt >= 0 && fset.Position(x.Pos()).Offset > serversSwitchedAt) {
+									cachedOK = true
+								}
 							}
 						case "processDelegation":
 							if id, ok := x.Rhs[i].(*ast.Ident); ok && id.Name == "nlevel" {
